@@ -222,10 +222,15 @@ with crepair (fuel : nat) (stk : list node) (c : ccaller) (n : node) (s : cstate
 
 End CRun.
 
+(** restart: the persisted columns ([cs_nodes], [cs_bwd], [cs_dirty], [cs_ts]) survive, the
+    volatile items (visited set, statistic, log) are reset *)
+Definition crestart (s : cstate) : cstate := cset_log (cset_stat (cset_visited s []) 0%N) [].
+
 Definition cstep_f (fuel : nat) (p : program) (s : cstate) (o : op) : cstate * opres :=
   let s := cset_log s [] in
   match o with
-  | OSetWorld _ _ | ORestart => (s, mkRes RUnit [] None)
+  | OSetWorld _ _ => (s, mkRes RUnit [] None)
+  | ORestart => (crestart s, mkRes RUnit [] None)
   | OQuery n =>
       match cquery p fuel [] CCUser None n s with
       | Ok (CValue z, _, s') => (s', mkRes (RValue z) (rev (cs_log s')) (Some (cs_stat s')))
